@@ -68,8 +68,10 @@ fn observe<C: CellType>(req: &Value) -> Value {
     let _ = InplaceInterpreter::<C>::create(code, level);
     // repeated executions of one executor on fresh contexts (only for halting programs)
     let mut execs = vec![];
-    if req["execute"].as_u64().unwrap_or(0) == 1 {
-        for b in ["inplace", "irint", "bcint", "jit"] {
+    let execute = req["execute"].as_u64().unwrap_or(0);
+    if execute >= 1 {
+        // (execute = 2: programs only the optimising pipelines can finish - no in-place run)
+        for b in ["inplace", "irint", "bcint", "jit"].into_iter().skip(if execute == 2 { 1 } else { 0 }) {
             let cfg = run::RunCfg::from_json(&json!({"backend": b, "level": level, "mode": "exec"}));
             let reps = run::run_repeated(code, C::BITS, &cfg, &input, 3);
             for (n, (log, ret)) in reps.into_iter().enumerate() {
